@@ -1,9 +1,9 @@
 package net
 
 import (
-	"path/filepath"
 	"fmt"
 	"os"
+	"path/filepath"
 	"regexp"
 	"sort"
 	"strconv"
